@@ -51,6 +51,10 @@ type c05Case struct {
 	// grouping case
 	Ops  []c05Op  `json:"ops,omitempty"`
 	Toks []string `json:"toks,omitempty"`
+	// Breaks: indices of tokens that start a new line (the expression is one
+	// statement; no built-in postfix ++/-- occurs in operator position, so a
+	// line break is white space everywhere)
+	Breaks []int `json:"breaks,omitempty"`
 	// registration history
 	Hist []c05Step `json:"hist,omitempty"`
 }
@@ -209,12 +213,33 @@ func c05Rename(n *ir.Node, peers map[string]*ir.Node) *ir.Node {
 	return &c
 }
 
+func c05Join(toks []string, breaks []int) string {
+	br := map[int]bool{}
+	for _, i := range breaks {
+		br[i] = true
+	}
+	var b strings.Builder
+	for i, t := range toks {
+		if i > 0 {
+			// never before a built-in ++/-- or ( [ (restricted production / would
+			// need no special care, but keeps the text unambiguous for readers)
+			if br[i] && t != "++" && t != "--" {
+				b.WriteString("\n  ")
+			} else {
+				b.WriteString(" ")
+			}
+		}
+		b.WriteString(t)
+	}
+	return b.String()
+}
+
 func c05Check(c c05Case, rec *evid.Recorder) *Fail {
 	if c.Hist != nil {
 		return c05CheckHist(c, rec)
 	}
 	rec.Eval()
-	src := strings.Join(c.Toks, " ")
+	src := c05Join(c.Toks, c.Breaks)
 	pb, err := c05Build(c.Ops)
 	if err != nil {
 		return failf("registration of fresh custom operators refused: %v (ops %v)", err, c.Ops)
@@ -436,7 +461,14 @@ func c05Gen(t *rapid.T, rec *evid.Recorder) c05Case {
 		ops = append(ops, c05Op{Lexeme: []string{"+", "*", "==", "&&"}[r.Intn(4, "builtinpre")], Role: "prefix"})
 		rec.Class("two-roles:builtin-infix+prefix")
 	}
-	return c05Case{Ops: ops, Toks: c05GenToks(r, ops, 3+r.Intn(20, "len"))}
+	c := c05Case{Ops: ops, Toks: c05GenToks(r, ops, 3+r.Intn(20, "len"))}
+	if r.Intn(3, "multiline") == 0 {
+		for i, n := 0, 1+r.Intn(4, "nbreaks"); i < n; i++ {
+			c.Breaks = append(c.Breaks, 1+r.Intn(len(c.Toks), "break"))
+		}
+		rec.Class("multi-line expression")
+	}
+	return c
 }
 
 // exhaustive: every level x every built-in neighbour on either side x operand shapes
